@@ -464,6 +464,7 @@ impl Case for C03Case {
                         max_instr: *budget,
                         cycle_replies: false,
             host_load: None,
+            host_load_after_list: None,
             max_slices: 0,
                     };
                     let o = w.line(text, &io);
